@@ -1,12 +1,24 @@
-(* C17 — concurrent and interleaved parsing gives the sequential results, at the granularity "one cache
-   primitive (ParseCache.__getitem__ / __setitem__) is atomic": for ANY schedule over a pool of requests —
-   including schedules that never resume some of them (abandoned generators / starved threads) — the cache
-   invariant holds after every step and every request that has completed returned what the cache-free
-   sequential engine returns.
-   PARTIAL: GIL atomicity of the OrderedDict primitives is assumed; pre-emption inside __getitem__/__setitem__,
-   free-threaded builds, RecursionError and the WeakSet of live caches are not modelled. *)
+(* C17 — concurrent and interleaved parsing gives the sequential results.
+   Two granularities.
+   (1) COARSE (CacheRefine): one ParseCache method is one atomic step; ANY schedule over a pool of suspended requests —
+       including schedules that never resume some of them (abandoned generators / starved threads): C17_partial_... below.
+   (2) FINE (CacheFine2*.v): every ParseCache method is split into micro-steps, ONE shared access each (one attribute read
+       or write on the cache, or one C-level operation on one OrderedDict object; `self.dict[key] = value` is two steps: the
+       attribute read and the store into the dict object that was read; dict objects have identity, so "self.dict =
+       OrderedDict()" by one thread while another still holds the old object is representable); ANY schedule of
+       micro-steps of any number of threads, any size limits, caches stale (arbitrary contents) or valid at the start:
+       THEOREM C17: no request dies, and every request that completes returns what the cache-free sequential engine
+       returns.  The theorem is about the code AS REPAIRED by fix 5ac99f3: while proving it the unrepaired eviction
+       (test len > max_size, then popitem, each re-reading self.dict) was REFUTED — three identical requests in lock step with
+       max_size 1 make the third popitem hit an empty dictionary: KeyError out of a parse request
+       (C17_unguarded_eviction_refuted; replayed on the real library by the lock-step scenario of the C17 check) —
+       and so is the other statement order of _drop_stale (C17_stamp_before_drop_refuted: a stale entry is served).
+   Assumed (CPython): a single C-level dict operation on (str, int) keys is atomic under the GIL; the global epoch and the
+   limits do not change while requests run.  Not modelled: free-threaded builds, RecursionError, the WeakSet of live
+   caches, __delitem__/__iter__/__len__/clear_caches concurrent with requests. *)
 From Coq Require Import List NArith.
-From ABNF Require Import Base Engine Cache EngineProg CacheRefine.
+From ABNF Require Import Base Engine Cache EngineProg CacheRefine CacheFine2 CacheFine2Proofs1 CacheFine2Proofs2 CacheFine2Refute.
+Import ListNotations.
 
 Theorem C17_partial_any_schedule : forall sh G rep_of (A : Type) (Qs : list (A -> Prop)) g sched st pool pool' st',
   cache_inv sh G rep_of g st ->
@@ -29,3 +41,57 @@ Theorem C17_engine_requests_are_good_programs : forall sh G rep_of e, ids_ok G r
   forall f s i, good sh G rep_of (fun r => r <> OOF -> exists f', lparse sh G f' e s i = r) (lparse_p sh G f e s i).
 Proof. exact lparse_p_good. Qed.
 Print Assumptions C17_engine_requests_are_good_programs.
+
+(* ---- micro-step granularity, the code as repaired --------------------------------------------------------------------- *)
+Theorem C17 : forall sh G rep_of g, ids_ok_G G rep_of -> forall sched st reqs pool' st',
+  fine_inv sh G rep_of g st -> Forall (req_ok rep_of) reqs ->
+  run_fine false true g st (map start (map (req_prog sh G) reqs)) sched = (pool', st') ->
+  (forall t, nth_error pool' t <> Some TCrash) /\
+  fine_inv sh G rep_of g st' /\
+  forall t f e s i r q, nth_error reqs t = Some (f, e, s, i) -> nth_error pool' t = Some (TRun (Ret r) q) ->
+    r <> OOF ->
+    (exists f', lparse sh G f' e s i = r) /\
+    (run_pure (req_prog sh G (f, e, s, i)) <> OOF -> r = run_pure (req_prog sh G (f, e, s, i))).
+Proof. exact C17_fine. Qed.
+Print Assumptions C17.
+
+(* the initial states covered: after ANY grammar change (all stamps older than or equal to the epoch, arbitrary contents) *)
+Theorem C17_holds_after_any_grammar_change : forall sh G rep_of g st,
+  (forall id, fep ckey cval (st id) <= g) -> fine_inv sh G rep_of (S g) st.
+Proof. intros sh G rep_of g st H. apply fine_inv_after_invalidate. intros id. specialize (H id). auto with arith. Qed.
+Print Assumptions C17_holds_after_any_grammar_change.
+
+(* not vacuous: three identical requests, every cache limited to one entry, EVERY schedule *)
+Example C17_three_threads_limit_one : forall sched pool' st',
+  run_fine false true 0 k_st0 (map start (map (req_prog sh_id ex_G) (repeat k_req 3))) sched = (pool', st') ->
+  (forall t, nth_error pool' t <> Some TCrash) /\
+  (forall t r q, t < 3 -> nth_error pool' t = Some (TRun (Ret r) q) -> r <> OOF -> r = run_pure ex_p).
+Proof. exact C17_fine_example. Qed.
+
+(* the defect found by this proof (repaired by fix 5ac99f3): with the UNGUARDED eviction the lock-step schedule kills
+   thread 2 — caches current, max_size 1, three identical requests *)
+Theorem C17_unguarded_eviction_refuted :
+  fine_inv sh_id ex_G ex_rep_of 0 k_st0 /\
+  (forall id, fep ckey cval (k_st0 id) = 0) /\
+  nth_error (fst (run_fine false false 0 k_st0 (map start (map (req_prog sh_id ex_G) (repeat k_req 3)))
+                           (flat_map (fun _ => [0; 1; 2]) (seq 0 27)))) 2
+  = Some TCrash.
+Proof. exact setitem_keyerror_fresh_refuted. Qed.
+Print Assumptions C17_unguarded_eviction_refuted.
+
+(* the order of the two assignments in _drop_stale matters: stamp first, then the fresh dict => a stale entry is served *)
+Theorem C17_stamp_before_drop_refuted :
+  ids_ok_G cx_G cx_rep_of /\ fine_inv sh_id cx_G cx_rep_of 1 m_st /\ Forall (req_ok cx_rep_of) [m_req; m_req] /\
+  exists r, nth_error (fst (run_fine true true 1 m_st (map start (map (req_prog sh_id cx_G) [m_req; m_req])) m_sched)) 1
+            = Some (TRun (Ret r) D1) /\
+            r <> OOF /\ r <> run_pure m_p /\ forall f', lparse sh_id cx_G f' cx_rep [97%N] 0 <> r.
+Proof. exact stamp_first_refuted. Qed.
+Print Assumptions C17_stamp_before_drop_refuted.
+
+(* the fine model refines the coarse one: a method run without interleaving is Cache.cget / cset, and every coarse schedule
+   is realised by a fine one *)
+Theorem C17_fine_refines_coarse : forall (A : Type) g sched st ast (pool : list (prog A)), sim st ast ->
+  exists fsched st', run_fine false true g st (map start pool) fsched = (map start (fst (run_sched g ast pool sched)), st') /\
+                     sim st' (snd (run_sched g ast pool sched)).
+Proof. intros A g sched st ast pool H. exact (coarse_sched_sim_repaired g sched st ast pool H). Qed.
+Print Assumptions C17_fine_refines_coarse.
